@@ -192,12 +192,20 @@ func processFile(filePath string, ctxt *processors.Context, checkOnly bool) erro
 		lines = append(lines, string(line))
 	}
 
+	headerLength := 3
 	if !checkStandardHeader(lines) {
 		logger.Info().Msgf("file %s does not have standard header", filename)
 		// prepend the standard header
 		lines = append([]string{regexAssemblyStandardHeader}, lines...)
+		headerLength = 1
 	}
-	lines = formatEndOfFile(lines)
+	// The empty line that terminates the header is part of the header,
+	// it must not be removed when nothing but empty lines follow.
+	if len(lines) > headerLength {
+		lines = append(lines[:headerLength], formatEndOfFile(lines[headerLength:])...)
+	} else {
+		lines = append(lines, "")
+	}
 
 	newContents := []byte(strings.Join(lines, "\n"))
 	if checkOnly {
